@@ -118,6 +118,11 @@ def run(ctx):
     for name, (mx, table, c) in em.items():
         c2 = dict(c, StatsSet=str(c["StatsSet"]))
         HC.replay_all(ctx, rep, mx, table, c2, KINDS, RP, "NormDrop", label=name + ":", procs=8)
+        # the same histories when nothing in the forward pass is tracked: a plain data batch (with affine=False no
+        # operand requires grad at all), and forward passes inside the caller's no_grad block
+        if "bnbwd" not in c["Acts"] and name.startswith("bn2d"):
+            HC.replay_all(ctx, rep, mx, table, c2, KINDS, RP, "NormDrop", label=name + ":plain-input:", procs=8, rkw=dict(x_rg=False))
+            HC.replay_all(ctx, rep, mx, table, c2, KINDS, RP, "NormDrop", label=name + ":no_grad:", procs=8, rkw=dict(no_grad=True))
     # ---- Dropout
     sg = repo.load(ctx.repo)
     drop_history_runs(ctx, rep, sg, KINDS, 4 if q else 5, mc=True)
